@@ -67,10 +67,10 @@ Definition requires_tbl (f : string) : held :=
   then [("COPY", MW)]
   else [].
 
-(* C12's hypothesis: a node's Process or Close, and the Sender a gated filter flushes through, may call Broker.Send,
-   which takes Broker.lock in read mode *)
+(* C12's hypothesis: a node's Process, Close or Reopen, and the Sender a gated filter flushes through, may call
+   Broker.Send, which takes Broker.lock in read mode (a recursive read lock deadlocks as soon as a writer is queued) *)
 Definition user_acq (k : string) : list string :=
-  if mem k ["Node.Process"; "Closer.Close"; "Sender.Send"] then [L_broker] else [].
+  if mem k ["Node.Process"; "Closer.Close"; "Node.Reopen"; "Sender.Send"] then [L_broker] else [].
 Definition no_user_acq (_ : string) : list string := [].
 
 Definition ctors : list string :=
